@@ -17,6 +17,7 @@ RULE = ("cases: structured ACE records (action, protocol 0..255 as number or any
         "RENDERED text (same meaning, valid platform syntax, switches respected). Non-trivial: non-contiguous "
         "mask, host bits under the mask, named port/protocol, multi-port eq/neq, sequence prefix or flags; "
         "distinct by canonical record + configuration")
+RULE += ". Directed classes added after the seeded-change rounds: same port expression on both sides with one side re-written after parsing; standard entries with every host spelling"
 ASSUMPTIONS = ["lib/refsem.py is the Cisco meaning of ACE text (conventions in DESIGN.md 2.3)",
                "port / protocol name tables are read from the library at run time; C09 pins their numbers",
                "prefix expansion compared for k <= 10 non-contiguous bits, base+mask text compared above"]
